@@ -1002,6 +1002,12 @@ def const_val(body, o):
         d = norm(x['def'])
         if d in body.prog.consts:
             return body.prog.consts[d]
+        cb = body.prog.get(d)
+        if cb is not None and cb.kind in ('Const', 'AssocConst') and cb is not body:
+            # a constant whose value was not evaluated by the driver (associated consts): `_0 = <literal>`
+            ds = cb.whole_defs(0)
+            if len(ds) == 1 and ds[0][0] == 'assign' and ds[0][2]['rv']['r'] == 'use':
+                return const_val(cb, ds[0][2]['rv']['a'][0])
         if d.endswith('::MAX') and 'u16' in d:
             return 65535
         if d.endswith('::MAX') and 'u8' in d:
